@@ -74,10 +74,16 @@ def seeded():
     head = ['| seed | change | verdict | caught by | failing obligation(s) |', '|---|---|---|---|---|']
     return '\n'.join(head + rows)
 
+def refactors():
+    f = V + '/refactors/RESULTS.txt'
+    if not os.path.exists(f):
+        return '(not run yet)'
+    return '```\n' + open(f).read().rstrip('\n') + '\n```'
+
 def main():
     p = V + '/DESIGN.md'
     s = open(p).read()
-    for name, fn in (('unclaimed', unclaimed), ('findings', findings), ('seeded', seeded)):
+    for name, fn in (('unclaimed', unclaimed), ('findings', findings), ('seeded', seeded), ('refactors', refactors)):
         b, e = '<!-- BEGIN:%s -->' % name, '<!-- END:%s -->' % name
         if b in s and e in s:
             i, j = s.index(b) + len(b), s.index(e)
